@@ -27,7 +27,7 @@ Guards(e) ==
              <<"G_C15_CleanupKeepsLive", \A u \in Users : (~pexp[u] => e.post.psig[u] = psig[u]) /\ (~mexp[u] => e.post.msig[u] = msig[u])>>}
       [] e.ev = "mutate_offline" ->
             {<<"G_C15_OutageRefusesWrites", e.out.refused>>,
-             <<"G_C15_OutagePrimaryUnchanged", ObsU(e.post.prim) = prim /\ ObsU(e.post.psig) = psig>>,
+             <<"G_C15_OutagePrimaryUnchanged", ObsU(e.post.prim) = prim /\ ObsU(e.post.psig) = psig /\ ~e.out.primchanged>>,
              <<"G_C15_OutageStillAuthenticates", e.out.authserved>>}
       [] OTHER -> {}
 
